@@ -234,6 +234,32 @@ Theorem C04_fast_in_next_le_max_B64_example :
   accept64 orig maxrel (hi64 orig maxrel) = true.
 Proof. exact fi_next_le_max_example. Qed.
 
+(* FastFixedOut as constructed (needed_input_size = the constructor's f64 formula): the first
+   advertised input_frames_next is at most input_frames_max in binary64, overflow of the quotient
+   to +inf and the saturating cast included (Proofs/GettersOutB.v: ceil is monotone, x <= RN(x*m) for m >= 1) *)
+From Rubato.Proofs Require Import GettersOutB.
+Theorem C04_fast_out_fresh_next_le_max_B64 : forall (st : @FastFixedOut Floats.CB),
+  let orig := FastFixedOut_resample_ratio_original st in
+  let maxrel := FastFixedOut_max_relative_ratio st in
+  let chunk := FastFixedOut_chunk_size st in
+  (1 <= chunk < 2 ^ 53)%Z ->
+  is_finite orig = true -> (0 < B2R orig)%R ->
+  is_finite maxrel = true -> (1 <= B2R maxrel)%R ->
+  FastFixedOut_needed_input_size st = @fo_new_needed_input_size Floats.CB chunk orig ->
+  (@fo_input_frames_next Floats.CB st <= @fo_input_frames_max Floats.CB st)%Z.
+Proof. exact fo_fresh_next_le_max_B64. Qed.
+
+(* non-vacuity: chunk 1024, ratio 1, max relative ratio 2: next = 1028, max = 2054 *)
+Theorem C04_fast_out_fresh_next_le_max_B64_example :
+  let st := fo_example in
+  (1 <= FastFixedOut_chunk_size st < 2 ^ 53)%Z /\
+  is_finite (FastFixedOut_resample_ratio_original st) = true /\ (0 < B2R (FastFixedOut_resample_ratio_original st))%R /\
+  is_finite (FastFixedOut_max_relative_ratio st) = true /\ (1 <= B2R (FastFixedOut_max_relative_ratio st))%R /\
+  FastFixedOut_needed_input_size st =
+    @fo_new_needed_input_size Floats.CB (FastFixedOut_chunk_size st) (FastFixedOut_resample_ratio_original st) /\
+  @fo_input_frames_next Floats.CB st = 1028%Z /\ @fo_input_frames_max Floats.CB st = 2054%Z.
+Proof. exact fo_fresh_example. Qed.
+
 Print Assumptions C04_fast_in_counts_R.
 Print Assumptions C04_fast_out_counts_R.
 Print Assumptions C04_fast_in_next_le_max_R.
@@ -256,3 +282,4 @@ Print Assumptions C04_fft_in_counts_binary.
 Print Assumptions C04_fast_in_next_le_max_B64.
 Print Assumptions C04_fast_in_next_le_max_accepted_B64.
 Print Assumptions C04_sinc_in_next_le_max_B64.
+Print Assumptions C04_fast_out_fresh_next_le_max_B64.
